@@ -22,6 +22,24 @@ CHECKS = {
    text="TLC exhausts schedule/cancel/time/advance interleavings of small wheels (NoEarly within one tick, no fire after cancel, conservation) and of the timer service (never early, one-shot once, no start after a successful cancel, stopped service refuses). The real wheel is driven through behaviours covering the TLC graph plus random two-thread programs with its own tick thread under scheduler control and exact virtual time; the real service runs gated real-time scenarios whose cross-thread facts are happens-before flags. Every recorded execution must be a behaviour of the Abs timer.",
    note="Trusted: TLC, the interposition scheduler and its virtual clock (wheel), the steady clock (service; early firing is judged on one clock only). Bounds: wheels of 2-8 slots x 1-3 levels, <=5 timers per execution, service scenarios of <=8 operations; the 'never silently dropped' clause is judged with a 1 s slack on the service. SteadyTimer is a thin wrapper and is not driven separately.",
    design="§4 C08"),
+ "C03": dict(
+   technique="TLA+ Impl spec SyncRecv.tla model-checked by TLC; every (arrival pattern, receive buffer lengths, close position) TLC visits becomes a program for the real Transport::Impl on a scripted engine (repository's injection seam) under a deterministic pthread-interposing scheduler (random schedules + preemption-bounded DFS); traces validated by TLC against the Abs oracle TransportTrace.tla",
+   category="model_checking",
+   text="TLC exhausts onData/onClose/receiveSync interleavings for small chunk patterns (in order, exactly once, overflow sticky and after the pre-overflow bytes, PeerClosed only after everything before the close, no lost wake-up). The real receive path runs the TLC-derived programs plus mode-switch / Disabled / two-reader / timeout programs with every pthread synchronisation point under scheduler control; each recorded execution must be a behaviour of the cursor-based Abs stream.",
+   note="Trusted: TLC, the interposition scheduler and virtual clock, the scripted engine standing in for the I/O thread (it calls the same Transport callbacks the real engines call). Bounds: <=5 chunks of <=4 bytes, caps 2-16, <=3 application threads, DFS preemption bound 1-2 truncated at a fixed number of executions. Real sockets are not involved here (C01 covers the engines).",
+   design="§4 C03"),
+ "C04": dict(
+   technique="TLA+ Impl spec SyncConnect.tla model-checked by TLC; caller x engine-outcome programs on the real Transport::Impl over a scripted engine under the deterministic scheduler with virtual time (random + preemption-bounded DFS + the TLC counterexample as a directed plan); traces validated by TLC against TransportTrace.tla",
+   category="model_checking",
+   text="TLC exhausts the orderings of registration, handshake completion, failure, timeout, the unlock window and the engine's close for 2-3 concurrent callers (global callbacks only for owned sessions; ok only for a live session). The real connectSync is driven through the same orderings by the scheduler; ok/Timeout/ShuttingDown results, the engine commands issued on behalf of the call and the global callbacks are judged by the Abs oracle, timeouts in exact virtual time.",
+   note="Trusted: TLC, scheduler, scripted engine. The 'no later than timeout plus bounded slack' clause is checked as 'never before the timeout and never stuck' (virtual time under an adversarial scheduler has no meaningful upper bound); real TCP/TLS handshakes (refused, black-holed, reset) are not exercised here.",
+   design="§4 C04"),
+ "C05": dict(
+   technique="TLA+ Impl spec Teardown.tla (entry fence, park-guard counters, wait-out gate) model-checked by TLC; stop/destroy/destroy-in-callback programs on the real Transport::Impl over a scripted engine under the deterministic scheduler, also in ASan and TSan builds (scheduler not instrumented); a real-engine scenario for concurrent stop(); traces validated by TLC against TransportTrace.tla / StopTrace.tla",
+   category="model_checking",
+   text="TLC proves within its bounds that the Impl is never freed while a receiver, connector or flusher is inside (dropping any counter from the gate is caught) and that nothing stays parked. The real teardown paths (normal, already stopped, I/O-thread self-destruction) run with parked receiveSync/connectSync/setReadMode callers and in-flight send/close/addListener under random and preemption-bounded schedules; a crash or sanitizer report is a violation, every call must return, no callback may start after stop()/destruction returned. Real TCP and UDP engines are checked for the two-concurrent-stoppers case.",
+   note="Trusted: TLC, scheduler, ASan/TSan (data-race clause is exploration: TSan sees only the schedules explored, and the event log adds happens-before edges at call boundaries). Repeated start/stop cycles and real-engine teardown races beyond concurrent stop() are covered only by the repository's own tests.",
+   design="§4 C05"),
 }
 
 NOT_APPLICABLE = {
